@@ -169,13 +169,16 @@ type Op struct {
 	Mods    []Mod          `json:"mods,omitempty"`
 	Prefix  []byte         `json:"prefix,omitempty"`
 	All     bool           `json:"all,omitempty"`
-	Key     []byte         `json:"key,omitempty"`
-	Muts    []Mut          `json:"muts,omitempty"`
-	Entries []Entry        `json:"entries,omitempty"`
-	Pred    *Filter        `json:"pred,omitempty"`
-	TrueM   []Mut          `json:"truem,omitempty"`
-	FalseM  []Mut          `json:"falsem,omitempty"`
-	Rules   []Rule         `json:"rules,omitempty"`
+	// AllFalse: DropRowRange whose target is delete_all_data_from_table with the value FALSE (set, but not asking
+	// for anything): invalid, nothing may be dropped
+	AllFalse bool    `json:"all_false,omitempty"`
+	Key      []byte  `json:"key,omitempty"`
+	Muts     []Mut   `json:"muts,omitempty"`
+	Entries  []Entry `json:"entries,omitempty"`
+	Pred     *Filter `json:"pred,omitempty"`
+	TrueM    []Mut   `json:"truem,omitempty"`
+	FalseM   []Mut   `json:"falsem,omitempty"`
+	Rules    []Rule  `json:"rules,omitempty"`
 	// ReadRows
 	HasRowSet bool     `json:"rowset,omitempty"`
 	Keys      [][]byte `json:"keys,omitempty"`
@@ -245,6 +248,9 @@ func (o Op) String() string {
 	case "DropRowRange":
 		if o.All {
 			return fmt.Sprintf("DropRowRange(%s,all)", short(o.Table))
+		}
+		if o.AllFalse {
+			return fmt.Sprintf("DropRowRange(%s,delete_all=false)", short(o.Table))
 		}
 		return fmt.Sprintf("DropRowRange(%s,prefix=%q)", short(o.Table), o.Prefix)
 	case "SetClock":
